@@ -287,6 +287,8 @@ def strategy():
         for _ in range(draw(st.integers(0, 6))):
             sel = draw(st.sampled_from(sorted(retri)))
             act = draw(st.sampled_from(["error", "error", "drop", "apply_drop", "no_reply", "delay", "apply_error"]))
+            if sel == "produce" and draw(st.integers(0, 3)) == 0:
+                act = "error_first"
             code = draw(st.sampled_from(retri[sel]))
             if act == "apply_error":
                 if sel == "produce":
